@@ -3,7 +3,7 @@ in-Coq evaluation of generated case files, evidence, violations, known findings.
 import os, sys, json, time, subprocess, shutil, hashlib, fcntl, random, re, atexit, tempfile, traceback
 
 VERIF = os.path.abspath(os.path.join(os.path.dirname(__file__), ".."))
-REPO = os.environ.get("VERIF_REPO", "/repo")
+REPO = os.environ.get("VERIF_REPO") or "/repo"      # an empty value means unset (never the file system root)
 COQ = os.path.join(VERIF, "coq")
 PY = "/venv/bin/python"
 GUARD = "NATUREBLOCKS_OPEN_IMPACT_STANDARDS_VERIF"
